@@ -12,7 +12,9 @@ undo() { git -C /repo checkout -- . ; git -C /repo clean -fdq -- pkg cmd 2>/dev/
 trap undo EXIT
 if ! git -C /repo apply "$dir/patch.diff"; then echo "SEEDTEST: patch does not apply"; exit 2; fi
 pkgs=$(git -C /repo diff --name-only | grep '\.go$' | xargs -n1 dirname | sort -u | sed 's|^|./|; s|$|/...|' | tr '\n' ' ')
-if (cd /repo && go build ./... 2>&1 | grep -v conda | head -5 | grep .); then echo "SEEDTEST: build FAILS"; exit 3; fi
+# (go build ./... fails on the pristine tree too: go-sdl2 needs a C library, pkg/melbond does not compile)
+bl=$(cd /repo && go list ./... 2>/dev/null | grep -v -e /pkg/melbond -e /cmd/melbond -e bmsdl -e sdl | tr '\n' ' ')
+if (cd /repo && go build $bl 2>&1 | grep -v -e conda -e sdl2 -e pkg-config -e PKG_CONFIG -e "virtual:world" -e "^#" | head -5 | grep .); then echo "SEEDTEST: build FAILS"; exit 3; fi
 echo "SEEDTEST: builds; touched: $pkgs"
 tests=$(bash tools/baseline.sh $pkgs 2>&1 | grep -v conda | tr '\n' ' ')
 echo "SEEDTEST: tests: $tests"
